@@ -10,6 +10,14 @@ S = adapters.load_model_stack()
 M = adapters.ModelNP
 
 
+def concrete(x, lo, hi):
+  """Branch on a small symbolic int so that the rest of the path runs on a concrete Python int."""
+  for v in range(lo, hi + 1):
+    if x == v:
+      return v
+  raise ValueError(x)
+
+
 def mk_datasets(cdm, A, sizes, pre=None):
   out, start = [], 0
   for n in sizes:
@@ -57,15 +65,17 @@ def check_pbcd(stack, A, sizes, batch_size, buckets, gen, via_fd):
   return total == 0 or bool(batches)
 
 
-def check_mismatch(stack, A, kind, which, api):
-  """Mismatching preprocessors / feature sets are rejected with ValueError."""
+def check_mismatch(stack, A, kind, which, api, msize=1, osize=2):
+  """Mismatching preprocessors / feature sets are rejected with ValueError -- also when the mismatching client (msize rows)
+  or the others (osize rows) are empty."""
   cdm = stack['cd']
   p1, p2 = cdm.BatchPreprocessor([lambda x: x]), cdm.BatchPreprocessor([lambda x: x])
-  dss = [cdm.ClientDataset({'x': A.arr([1, 2], 'int32')}, p1) for _ in range(3)]
+  dss = [cdm.ClientDataset({'x': A.arr(list(range(1, 1 + osize)), 'int32')}, p1) for _ in range(3)]
+  rows = list(range(3, 3 + msize))
   if kind == 0:
-    dss[which] = cdm.ClientDataset({'x': A.arr([3], 'int32')}, p2)
+    dss[which] = cdm.ClientDataset({'x': A.arr(rows, 'int32')}, p2)
   else:
-    dss[which] = cdm.ClientDataset({'x': A.arr([3], 'int32'), 'z': A.arr([4], 'int32')}, p1)
+    dss[which] = cdm.ClientDataset({'x': A.arr(rows, 'int32'), 'z': A.arr(rows, 'int32')}, p1)
   if which == 0:
     return True     # the first dataset defines the expectation
   try:
@@ -154,6 +164,33 @@ def check_srbfd(stack, A, sizes, batch_size, cbuf, ebuf, seed0, tape):
   return run() == a
 
 
+def check_srbfd_subset(stack, A, sizes, batch_size, cbuf, o1, o2):
+  """The same stream over a SubsetFederatedData wrapper: reproducible for a fixed seed in ANOTHER PROCESS too, i.e. for any
+  iteration order of the wrapper's id set (o1, o2 = the set order in the two runs); every pass is a permutation of the clients."""
+  cdm = stack['cd']
+  dss, total = mk_datasets(cdm, A, sizes)
+  if total == 0 or not sizes:
+    return True
+  fd = stack['im'].InMemoryFederatedData({i: {'x': d.raw_examples['x']} for i, d in enumerate(dss)})
+  if A is M:
+    np_lite.set_tape(None)
+
+  def run(order):
+    adapters.SET_ORDER[0] = order
+    try:
+      sub = stack['fd'].SubsetFederatedData(fd, list(range(len(sizes))))
+      ids = [c for c, _ in itertools.islice(sub.shuffled_clients(buffer_size=cbuf, seed=3), 2 * len(sizes))]
+      it = stack['fd'].shuffle_repeat_batch_federated_data(sub, batch_size=batch_size, client_buffer_size=cbuf, example_buffer_size=1, seed=3)
+      return ids, [A.rows(b['x']) for b in itertools.islice(it, 2)], [c for c, _ in sub.clients()]
+    finally:
+      adapters.SET_ORDER[0] = 0
+  a = run(o1)
+  n = len(sizes)
+  if sorted(a[0][:n]) != list(range(n)) or sorted(a[0][n:]) != list(range(n)) or a[2] != list(range(n)):
+    return False
+  return run(o2) == a
+
+
 # ---- contracts --------------------------------------------------------------------------------------------
 def pbcd(sizes: List[int], batch_size: int, buckets: int, gen: bool) -> bool:
   """
@@ -188,14 +225,16 @@ def pbcd_reach(sizes: List[int], batch_size: int, buckets: int, gen: bool) -> bo
   return check_pbcd(S, M, sizes, batch_size, buckets, gen, False)
 
 
-def mismatch(kind: int, which: int, api: int) -> bool:
+def mismatch(kind: int, which: int, api: int, msize: int, osize: int) -> bool:
   """
   pre: 0 <= kind <= 1
   pre: 0 <= which <= 2
   pre: 0 <= api <= 1
+  pre: 0 <= msize <= 2
+  pre: 0 <= osize <= 2
   post: __return__
   """
-  return check_mismatch(S, M, kind, which, api)
+  return check_mismatch(S, M, kind, which, api, concrete(msize, 0, 2), concrete(osize, 0, 2))
 
 
 FACT = [1, 1, 2, 6, 24, 120]
@@ -255,6 +294,17 @@ def repeatable(kind: int, n: int, drive: int) -> bool:
   post: __return__
   """
   return check_repeat(S, kind, n, drive)
+
+
+def srbfd_subset(n: int, cbuf: int, o2: int) -> bool:
+  """
+  n single-row clients behind a subset wrapper; first run with set order 0, second with set order o2.
+  pre: 1 <= n <= 3
+  pre: 1 <= cbuf <= 3
+  pre: 1 <= o2 <= 5
+  post: __return__
+  """
+  return check_srbfd_subset(S, M, [1] * concrete(n, 1, 3), 1, concrete(cbuf, 1, 3), 0, concrete(o2, 1, 5))
 
 
 def srbfd(sizes: List[int], batch_size: int, cbuf: int, ebuf: int, seed0: bool) -> bool:
